@@ -208,6 +208,7 @@ impl HandshakeState {
     /// length in the Noise Protocol (65535 bytes).
     pub fn write_message(&mut self, payload: &[u8], message: &mut [u8]) -> Result<usize, Error> {
         let checkpoint = self.symmetricstate.checkpoint();
+        let (rs, re, e_on) = (self.rs, self.re, self.e.is_on());
         match self._write_message(payload, message) {
             Ok(res) => {
                 self.pattern_position += 1;
@@ -216,6 +217,8 @@ impl HandshakeState {
             },
             Err(err) => {
                 self.symmetricstate.restore(checkpoint);
+                (self.rs, self.re) = (rs, re);
+                self.e.set_on(e_on);
                 Err(err)
             },
         }
@@ -336,6 +339,7 @@ impl HandshakeState {
     /// Will result in `StateProblem::Exhausted` if the max nonce count overflows.
     pub fn read_message(&mut self, message: &[u8], payload: &mut [u8]) -> Result<usize, Error> {
         let checkpoint = self.symmetricstate.checkpoint();
+        let (rs, re, e_on) = (self.rs, self.re, self.e.is_on());
         match self._read_message(message, payload) {
             Ok(res) => {
                 self.pattern_position += 1;
@@ -344,6 +348,8 @@ impl HandshakeState {
             },
             Err(err) => {
                 self.symmetricstate.restore(checkpoint);
+                (self.rs, self.re) = (rs, re);
+                self.e.set_on(e_on);
                 Err(err)
             },
         }
